@@ -276,3 +276,28 @@ Proof.
   induction l as [|[k2 v2] l IH]; cbn; [reflexivity|]. intros H. apply orb_false_iff in H. destruct H as [H1 H2].
   destruct (String.eqb k' k2); cbn; [exact H2|]. rewrite H1. cbn. auto.
 Qed.
+
+Lemma py_slice_from_within {A} (a b : list A) (n : Z) : (0 <= n <= Z.of_nat (length a))%Z ->
+  py_slice (a ++ b) (Some n) None = (skipn (Z.to_nat n) a ++ b)%list.
+Proof.
+  intros H. unfold py_slice. rewrite clip_in by (rewrite app_length; lia). rewrite skipn_app.
+  replace (Z.to_nat n - length a) with 0 by lia. reflexivity.
+Qed.
+
+Lemma fields_within_mono n m L : n <= m -> fields_within n L = true -> fields_within m L = true.
+Proof.
+  intros Hnm. unfold fields_within. rewrite !forallb_forall. intros H x Hx. specialize (H x Hx).
+  destruct (snd x) as [mk off|u off len]; cbn [field_within] in *; apply Nat.leb_le in H; apply Nat.leb_le; lia.
+Qed.
+
+Lemma py_slice_inside {A} (a b : list A) (n k : Z) : (0 <= n <= k)%Z -> (k <= Z.of_nat (length a))%Z ->
+  py_slice (a ++ b) (Some n) (Some k) = firstn (Z.to_nat k - Z.to_nat n) (skipn (Z.to_nat n) a).
+Proof.
+  intros Hn Hk. unfold py_slice. rewrite !clip_in by (rewrite app_length; lia).
+  rewrite skipn_app. replace (Z.to_nat n - length a) with 0 by lia. cbn [skipn].
+  rewrite firstn_app, skipn_length. replace (Z.to_nat k - Z.to_nat n - (length a - Z.to_nat n)) with 0 by lia.
+  cbn [firstn]. apply app_nil_r.
+Qed.
+
+Lemma concat_len_ge (ds : list bytes) (E : nat) : 0 < E -> Forall (fun d => length d = E) ds -> length ds <= length (concat ds).
+Proof. intros HE H. induction H as [|d ds Hl _ IH]; [reflexivity|]. cbn [concat length]. rewrite app_length, Hl. lia. Qed.
